@@ -149,4 +149,533 @@ theorem bwd_eq (key : Name) : ∀ (rev : List Name) (k : Nat), bwd key rev k = (
     · simp only [hn, ↓reduceIte, midx, List.reverse_nil, List.nil_append]
       exact bwd_eq key r k
 
+/-- the exact record of the `j`-th element of a realised sibling list -/
+theorem Real.rec_tree {s : Store} : ∀ {L : Forest} {par prev : Option Nat} {j : Nat} {t : Tree},
+    Real s par prev L → L[j]? = some t →
+    s.nodes[t.id]? = some (recOf (headId (L.drop (j + 1))) (prevAt prev L j) par t.children t.name t.value)
+  | [], _, _, _, _, _, h => by simp at h
+  | (.node i n v cs) :: ts, par, prev, 0, t, hL, h => by
+    rw [Real_cons] at hL
+    simp at h; subst h
+    simpa [prevAt, Tree.id, Tree.children, Tree.name, Tree.value] using hL.1
+  | (.node i n v cs) :: ts, par, prev, j + 1, t, hL, h => by
+    rw [Real_cons] at hL
+    have := Real.rec_tree hL.2.2 (j := j) (t := t) (by simpa using h)
+    rw [prevAt_succ]; simpa [Tree.id] using this
+
+theorem drop_eq_cons_of_getElem? {L : Forest} {j : Nat} {t : Tree} (h : L[j]? = some t) : L.drop j = t :: L.drop (j + 1) := by
+  have hlt := (List.getElem?_eq_some_iff.1 h).1
+  have := List.drop_eq_getElem_cons hlt
+  rw [this]
+  have h2 := (List.getElem?_eq_some_iff.1 h).2
+  rw [h2]
+
+/-- forward name search of node_locate.c from the `j`-th element -/
+theorem locFwd_real {s : Store} {L : Forest} {par prev : Option Nat} (key : Name) (hL : Real s par prev L) :
+    ∀ (fuel j k : Nat) (t : Tree), L[j]? = some t → L.length - j ≤ fuel →
+    s.locFwd key fuel k t.id = .ok ((fwdFrom key ((L.drop j).map Tree.name) k j).bind fun i => (L[i]?).map Tree.id)
+  | 0, j, k, t, h, hf => by
+    have := (List.getElem?_eq_some_iff.1 h).1
+    omega
+  | f + 1, j, k, t, h, hf => by
+    have hrec := Real.rec_tree hL h
+    have hlt := (List.getElem?_eq_some_iff.1 h).1
+    rw [drop_eq_cons_of_getElem? h]
+    simp only [Store.locFwd, Store.get_ok ⟨hrec, rfl⟩, Res.bind_ok, List.map_cons, fwdFrom]
+    by_cases hc : t.name = key ∧ k ≤ 1
+    · simp [hc, h]
+    · simp only [hc, ↓reduceIte]
+      rw [headId_drop]
+      cases hn : L[j + 1]? with
+      | none =>
+        have : L.drop (j + 1) = [] := by
+          apply List.drop_eq_nil_of_le
+          have := List.getElem?_eq_none_iff.1 hn
+          omega
+        simp [this, fwdFrom]
+      | some t' =>
+        simp only [Option.map_some]
+        exact locFwd_real key hL f (j + 1) _ t' hn (by omega)
+
+theorem take_succ_reverse {L : Forest} {j : Nat} {t : Tree} (h : L[j]? = some t) :
+    ((L.take (j + 1)).map Tree.name).reverse = t.name :: ((L.take j).map Tree.name).reverse := by
+  rw [List.take_add_one, h]
+  simp
+
+/-- backward name search of node_locate.c from the `j`-th element of a list without predecessor -/
+theorem locBack_real {s : Store} {L : Forest} {par : Option Nat} (key : Name) (hL : Real s par none L) :
+    ∀ (fuel j k : Nat) (t : Tree), L[j]? = some t → j + 1 ≤ fuel →
+    s.locBack key fuel k t.id = .ok ((bwd key ((L.take j).map Tree.name).reverse k).bind fun i => (L[i]?).map Tree.id)
+  | 0, j, k, t, h, hf => by omega
+  | f + 1, j, k, t, h, hf => by
+    have hrec := Real.rec_tree hL h
+    simp only [Store.locBack, Store.get_ok ⟨hrec, rfl⟩, Res.bind_ok, recOf]
+    rw [prevAt_none_eq]
+    cases j with
+    | zero => simp [bwd]
+    | succ j' =>
+      have hlt := (List.getElem?_eq_some_iff.1 h).1
+      obtain ⟨t', ht'⟩ : ∃ t', L[j']? = some t' := ⟨L[j'], List.getElem?_eq_getElem (by omega)⟩
+      have hrec' := Real.rec_tree hL ht'
+      simp only [Nat.add_one_ne_zero, ↓reduceIte, Nat.add_sub_cancel, ht', Option.map_some,
+        Store.get_ok ⟨hrec', rfl⟩, Res.bind_ok]
+      rw [take_succ_reverse ht']
+      simp only [bwd, List.length_reverse, List.length_map, List.length_take]
+      have hmin : min j' L.length = j' := by omega
+      by_cases hn : t'.name = key
+      · simp only [hn, ↓reduceIte]
+        by_cases hk : k ≤ 1
+        · simp [hk, hmin, ht']
+        · simp only [hk, ↓reduceIte]
+          exact locBack_real key hL f j' (k - 1) t' ht' (by omega)
+      · simp only [hn, ↓reduceIte]
+        exact locBack_real key hL f j' k t' ht' (by omega)
+
+
+theorem midx_head_drop (key : Name) : ∀ (ns : List Name) (b a0 : Nat), (midx key ns b).head? = some a0 →
+    midx key (ns.drop (a0 - b)) a0 = midx key ns b
+  | [], b, a0, h => by simp [midx] at h
+  | n :: ns, b, a0, h => by
+    simp only [midx] at h ⊢
+    by_cases hn : n = key
+    · simp only [hn, ↓reduceIte, List.head?_cons, Option.some.injEq] at h
+      subst h
+      simp [midx, hn]
+    · simp only [hn, ↓reduceIte] at h ⊢
+      have hge : b + 1 ≤ a0 := midx_ge key ns (b + 1) a0 (List.mem_of_mem_head? h)
+      have := midx_head_drop key ns (b + 1) a0 h
+      have h2 : a0 - b = (a0 - (b + 1)) + 1 := by omega
+      rw [h2, List.drop_succ_cons]
+      exact this
+
+theorem midx_last_take (key : Name) (ns : List Name) (b aL : Nat) (h : (midx key ns b).getLast? = some aL) :
+    midx key ns b = midx key (ns.take (aL - b)) b ++ [aL] := by
+  have hmem : aL ∈ midx key ns b := List.mem_of_getLast? h
+  obtain ⟨hge, hat⟩ := (mem_midx key ns b aL).1 hmem
+  have hsplit : ns = ns.take (aL - b) ++ ns.drop (aL - b) := (List.take_append_drop _ _).symm
+  have hlt : aL - b < ns.length := (List.getElem?_eq_some_iff.1 hat).1
+  have hdrop : ns.drop (aL - b) = key :: ns.drop (aL - b + 1) := by
+    rw [List.drop_eq_getElem_cons hlt]
+    have := (List.getElem?_eq_some_iff.1 hat).2
+    rw [this]
+  have hlen : (ns.take (aL - b)).length = aL - b := by simp; omega
+  have hall : midx key ns b = midx key (ns.take (aL - b)) b ++ (aL :: midx key (ns.drop (aL - b + 1)) (aL + 1)) := by
+    conv => lhs; rw [hsplit]
+    rw [midx_append, hlen, hdrop]
+    have : b + (aL - b) = aL := by omega
+    simp [midx, this]
+  cases hrest : midx key (ns.drop (aL - b + 1)) (aL + 1) with
+  | nil => rw [hall, hrest]
+  | cons y ys =>
+    exfalso
+    rw [hall, hrest] at h
+    have hl : ((midx key (ns.take (aL - b)) b ++ aL :: y :: ys)).getLast? = (y :: ys).getLast? := by
+      rw [List.getLast?_append, List.getLast?_cons_cons]
+      cases hq : (y :: ys).getLast? with
+      | none => simp at hq
+      | some z => simp
+    rw [hl] at h
+    have hm : aL ∈ midx key (ns.drop (aL - b + 1)) (aL + 1) := by rw [hrest]; exact List.mem_of_getLast? h
+    have := midx_ge key _ _ aL hm
+    omega
+
+/-- `pos = 0` of node_locate: the last element if it matches, else the nearest match before it -/
+theorem last_match_eq (key : Name) (ns : List Name) (hne : ns ≠ []) :
+    (if ns[ns.length - 1]? = some key then some (ns.length - 1) else bwd key (ns.take (ns.length - 1)).reverse 1) =
+      (midx key ns 0).getLast? := by
+  have hlt : ns.length - 1 < ns.length := by
+    cases ns with
+    | nil => exact absurd rfl hne
+    | cons a as => simp
+  have hsplit : ns = ns.take (ns.length - 1) ++ [ns[ns.length - 1]] := by
+    conv => lhs; rw [← List.take_append_drop (ns.length - 1) ns]
+    rw [List.drop_eq_getElem_cons hlt]
+    have : ns.length - 1 + 1 = ns.length := by omega
+    simp [this]
+  have hall : midx key ns 0 = midx key (ns.take (ns.length - 1)) 0 ++ midx key [ns[ns.length - 1]] (ns.length - 1) := by
+    conv => lhs; rw [hsplit]
+    rw [midx_append]
+    simp
+  rw [hall]
+  by_cases hk : ns[ns.length - 1] = key
+  · have : ns[ns.length - 1]? = some key := by rw [List.getElem?_eq_getElem hlt, hk]
+    simp [this, midx, hk]
+  · have : ¬ (ns[ns.length - 1]? = some key) := by rw [List.getElem?_eq_getElem hlt]; simpa using hk
+    simp only [this, ↓reduceIte, midx, hk, List.append_nil]
+    rw [bwd_eq]
+    simp only [List.reverse_reverse, Nat.sub_self]
+    rw [← List.head?_eq_getElem?, List.head?_reverse]
+
+
+theorem namesakes_from (L : Forest) (key : Name) (f : Nat) :
+    (namesakes L key).filter (· ≥ f) = midx key ((L.drop f).map Tree.name) f := by
+  have := midx_drop key (L.map Tree.name) 0 f
+  simp only [Nat.zero_add] at this
+  simp only [namesakes, ge_iff_le, List.map_drop]
+  exact this
+
+theorem namesakes_before (L : Forest) (key : Name) (f : Nat) :
+    (namesakes L key).filter (· < f) = midx key ((L.take f).map Tree.name) 0 := by
+  have := midx_take key (L.map Tree.name) 0 f
+  simp only [Nat.zero_add] at this
+  simp only [namesakes, List.map_take]
+  exact this
+
+/-- `mpt_node_locate(first, pos, name)` on a realised sibling list (first = its `f`-th element) finds the element
+    the specification names (`locIdx`) -/
+theorem locate_real {s : Store} {L : Forest} {par : Option Nat} {f : Nat} {tf : Tree} (key : Name) (pos : Int)
+    (hL : Real s par none L) (hf : L[f]? = some tf) (hfuel : L.length ≤ s.fuel) :
+    s.locate (some tf.id) pos key = .ok ((locIdx L f key pos).bind fun i => (L[i]?).map Tree.id) := by
+  have hflt := (List.getElem?_eq_some_iff.1 hf).1
+  have hne : L ≠ [] := by intro h; simp [h] at hflt
+  by_cases h0 : pos = 0
+  · subst h0
+    obtain ⟨tl, htl⟩ := getElem?_last hne
+    have hlast : s.lastOf s.fuel tf.id = .ok tl.id := by
+      rw [lastOf_real hL s.fuel f tf hf (by omega), htl]; rfl
+    have hrec := Real.rec_tree hL htl
+    simp only [Store.locate, ↓reduceIte, hlast, Res.bind_ok, Store.get_ok ⟨hrec, rfl⟩, recOf]
+    have hnn : (L.map Tree.name) ≠ [] := by simpa using hne
+    have hlm := last_match_eq key (L.map Tree.name) hnn
+    simp only [List.length_map, List.getElem?_map, htl, Option.map_some, Option.some.injEq] at hlm
+    simp only [locIdx, Int.lt_irrefl, ↓reduceIte, namesakes]
+    rw [← hlm]
+    by_cases hn : tl.name = key
+    · simp [hn, htl]
+    · simp only [hn, ↓reduceIte]
+      have := locBack_real key hL s.fuel (L.length - 1) 1 tl htl (by omega)
+      simpa [List.map_take] using this
+  · by_cases hp : pos > 0
+    · have hnl : ¬ pos < 0 := by omega
+      simp only [Store.locate, h0, ↓reduceIte, hnl, locIdx, hp]
+      rw [locFwd_real key hL s.fuel f pos.toNat tf hf (by omega), fwdFrom_eq, namesakes_from]
+    · have hneg : pos < 0 := by omega
+      simp only [Store.locate, h0, ↓reduceIte, hneg, locIdx, hp]
+      rw [locBack_real key hL s.fuel f (-pos).toNat tf hf (by omega), bwd_eq, namesakes_before]
+      simp
+
+
+/-- from the first namesake at or behind `f` on, the namesakes are the namesakes from `f` on -/
+theorem namesakes_from_head (L : Forest) (key : Name) (f a0 : Nat)
+    (h : ((namesakes L key).filter (· ≥ f)).head? = some a0) :
+    (namesakes L key).filter (· ≥ a0) = (namesakes L key).filter (· ≥ f) := by
+  rw [namesakes_from] at h ⊢
+  rw [namesakes_from]
+  have hge : f ≤ a0 := midx_ge key _ f a0 (List.mem_of_mem_head? h)
+  have := midx_head_drop key ((L.drop f).map Tree.name) f a0 h
+  rw [← this, ← List.map_drop, List.drop_drop]
+  have : f + (a0 - f) = a0 := by omega
+  rw [this]
+
+/-- the namesakes before the last namesake are all but the last -/
+theorem namesakes_before_last (L : Forest) (key : Name) (aL : Nat) (h : (namesakes L key).getLast? = some aL) :
+    (namesakes L key).filter (· < aL) = (namesakes L key).dropLast := by
+  rw [namesakes_before]
+  have := midx_last_take key (L.map Tree.name) 0 aL h
+  simp only [Nat.sub_zero] at this
+  simp only [namesakes]
+  rw [this, List.dropLast_concat, List.map_take]
+
+theorem reverse_dropLast_getElem? {A : List Nat} {k : Nat} (hk : 1 ≤ k) :
+    (A.dropLast.reverse)[k - 1]? = if k < A.length then A[A.length - 1 - k]? else none := by
+  by_cases h : k < A.length
+  · simp only [h, ↓reduceIte]
+    have hl : k - 1 < A.dropLast.reverse.length := by simp; omega
+    rw [List.getElem?_eq_getElem hl, List.getElem_reverse]
+    simp only [List.length_dropLast, List.getElem_dropLast]
+    have : A.length - 1 - 1 - (k - 1) = A.length - 1 - k := by omega
+    rw [List.getElem?_eq_getElem (by omega)]
+    simp [this]
+  · simp only [h, ↓reduceIte]
+    apply List.getElem?_eq_none
+    simp; omega
+
+theorem namesakes_lt (L : Forest) (key : Name) : ∀ i ∈ namesakes L key, i < L.length := by
+  intro i hi
+  have := ((mem_midx key (L.map Tree.name) 0 i).1 hi).2
+  have := (List.getElem?_eq_some_iff.1 this).1
+  simpa using this
+
+
+/-- where `node_insert(first, pos, x, node_locate)` (by name) ends up: one call of after/before at a list
+    element at the index `nameIdx` names, or nothing at all when `nameIdx` is `none` -/
+theorem nodeInsert_name {s : Store} {L : Forest} {par : Option Nat} {f x : Nat} {tf : Tree} {xn : Node} (pos : Int)
+    (hL : Real s par none L) (hf : L[f]? = some tf) (hfuel : L.length ≤ s.fuel) (hx : s.Live x xn) :
+    (∃ jt tt, L[jt]? = some tt ∧
+      ((s.nodeInsert tf.id pos x true = s.gnodeAfter (some tt.id) x ∧ nameIdx L f xn.name pos = some (jt + 1)) ∨
+       (s.nodeInsert tf.id pos x true = s.gnodeBefore (some tt.id) x ∧ nameIdx L f xn.name pos = some jt))) ∨
+    (s.nodeInsert tf.id pos x true = .ok s ∧ nameIdx L f xn.name pos = none) := by
+  have hflt := (List.getElem?_eq_some_iff.1 hf).1
+  have hne : L ≠ [] := by intro h; simp [h] at hflt
+  obtain ⟨tl, htl⟩ := getElem?_last hne
+  have hlast : s.lastOf s.fuel tf.id = .ok tl.id := by
+    rw [lastOf_real hL s.fuel f tf hf (by omega), htl]; rfl
+  have hl0 : s.gnodePos (some tf.id) 0 = .ok (some tl.id) := by simp [Store.gnodePos, hlast]
+  -- the name lookups
+  have hget : ∀ (j : Nat) (tj : Tree) (p : Int), L[j]? = some tj →
+      s.getnode true x (some tj.id) p = .ok ((locIdx L j xn.name p).bind fun i => (L[i]?).map Tree.id) := by
+    intro j tj p hj
+    simp only [Store.getnode, ↓reduceIte, Store.get_ok hx, Res.bind_ok]
+    exact locate_real xn.name p hL hj hfuel
+  have hidx : ∀ i ∈ namesakes L xn.name, ∃ ti, L[i]? = some ti := by
+    intro i hi
+    exact ⟨L[i]'(namesakes_lt L xn.name i hi), List.getElem?_eq_getElem _⟩
+  -- abbreviations of the spec
+  have hA0 : locIdx L f xn.name 0 = (namesakes L xn.name).getLast? := by simp [locIdx]
+  have hF1 : locIdx L f xn.name 1 = ((namesakes L xn.name).filter (· ≥ f))[0]? := by simp [locIdx]
+  by_cases h0 : pos = 0
+  · subst h0
+    cases hA : (namesakes L xn.name).getLast? with
+    | none =>
+      have hAnil : namesakes L xn.name = [] := List.getLast?_eq_none_iff.1 hA
+      left
+      refine ⟨L.length - 1, tl, htl, Or.inl ⟨?_, ?_⟩⟩
+      · simp [Store.nodeInsert, hget f tf 0 hf, hA0, hA, hl0]
+      · simp only [nameIdx, Int.lt_irrefl, ↓reduceIte, hAnil]
+        congr 1; omega
+    | some aL =>
+      obtain ⟨tL, htL⟩ := hidx aL (List.mem_of_getLast? hA)
+      have hAne : namesakes L xn.name ≠ [] := by intro h; simp [h] at hA
+      left
+      refine ⟨aL, tL, htL, Or.inl ⟨?_, ?_⟩⟩
+      · simp [Store.nodeInsert, hget f tf 0 hf, hA0, hA, htL]
+      · simp only [nameIdx, Int.lt_irrefl, ↓reduceIte]
+        cases hAl : namesakes L xn.name with
+        | nil => exact absurd hAl hAne
+        | cons a as =>
+          simp only [Int.neg_zero, Int.toNat_zero, List.length_cons, Nat.zero_lt_succ, ↓reduceIte, Nat.sub_zero,
+            Nat.add_sub_cancel]
+          rw [hAl, List.getLast?_eq_getElem?] at hA
+          simp only [List.length_cons, Nat.add_sub_cancel] at hA
+          rw [hA]; rfl
+  by_cases hp : pos > 0
+  · -- start = first namesake from `first` on
+    have hstart := hget f tf 1 hf
+    rw [hF1] at hstart
+    cases hF : ((namesakes L xn.name).filter (· ≥ f))[0]? with
+    | none =>
+      have hFnil : (namesakes L xn.name).filter (· ≥ f) = [] := by
+        cases hq : (namesakes L xn.name).filter (· ≥ f) with
+        | nil => rfl
+        | cons a as => rw [hq] at hF; simp at hF
+      left
+      refine ⟨L.length - 1, tl, htl, Or.inl ⟨?_, ?_⟩⟩
+      · simp [Store.nodeInsert, hp, hstart, hF, hl0]
+      · simp only [nameIdx, hp, ↓reduceIte, hFnil]
+        congr 1; omega
+    | some a0 =>
+      have ha0mem : a0 ∈ (namesakes L xn.name).filter (· ≥ f) := List.mem_of_getElem? hF
+      have ha0A : a0 ∈ namesakes L xn.name := (List.mem_filter.1 ha0mem).1
+      obtain ⟨t0, ht0⟩ := hidx a0 ha0A
+      have hFne : (namesakes L xn.name).filter (· ≥ f) ≠ [] := by intro h; rw [h] at ha0mem; simp at ha0mem
+      by_cases h1 : pos = 1
+      · subst h1
+        left
+        refine ⟨a0, t0, ht0, Or.inr ⟨?_, ?_⟩⟩
+        · simp [Store.nodeInsert, hstart, hF, ht0]
+        · simp only [nameIdx, Int.one_pos, ↓reduceIte]
+          cases hq : (namesakes L xn.name).filter (· ≥ f) with
+          | nil => exact absurd hq hFne
+          | cons a as =>
+            rw [hq] at hF
+            simp at hF
+            simp [hF]
+      · -- pos ≥ 2: the pos-th namesake from `first` on
+        have hn1 : ¬ pos < 1 := by omega
+        have hnl : ¬ pos < 0 := by omega
+        have hneg1 : -pos < 1 := by omega
+        have hhead : ((namesakes L xn.name).filter (· ≥ f)).head? = some a0 := by
+          rw [List.head?_eq_getElem?]; exact hF
+        have htmp := hget a0 t0 pos ht0
+        have hloc2 : locIdx L a0 xn.name pos = ((namesakes L xn.name).filter (· ≥ f))[pos.toNat - 1]? := by
+          simp only [locIdx, hp, ↓reduceIte]
+          rw [namesakes_from_head L xn.name f a0 hhead]
+        rw [hloc2] at htmp
+        cases hT : ((namesakes L xn.name).filter (· ≥ f))[pos.toNat - 1]? with
+        | some i =>
+          have himem : i ∈ namesakes L xn.name := (List.mem_filter.1 (List.mem_of_getElem? hT)).1
+          obtain ⟨ti, hti⟩ := hidx i himem
+          left
+          refine ⟨i, ti, hti, Or.inr ⟨?_, ?_⟩⟩
+          · simp [Store.nodeInsert, hp, hstart, hF, ht0, h0, h1, htmp, hT, hti, hn1]
+          · simp only [nameIdx, hp, ↓reduceIte]
+            cases hq : (namesakes L xn.name).filter (· ≥ f) with
+            | nil => exact absurd hq hFne
+            | cons a as => rw [hq] at hT; simp [hT]
+        | none =>
+          have hAne : namesakes L xn.name ≠ [] := by intro h; rw [h] at ha0A; simp at ha0A
+          obtain ⟨aL, hAL⟩ : ∃ aL, (namesakes L xn.name).getLast? = some aL := by
+            cases hq : (namesakes L xn.name).getLast? with
+            | none => exact absurd (List.getLast?_eq_none_iff.1 hq) hAne
+            | some a => exact ⟨a, rfl⟩
+          obtain ⟨tL, htL⟩ := hidx aL (List.mem_of_getLast? hAL)
+          have hlast0 := hget f tf 0 hf
+          rw [hA0, hAL] at hlast0
+          left
+          refine ⟨aL, tL, htL, Or.inl ⟨?_, ?_⟩⟩
+          · simp [Store.nodeInsert, hp, hstart, hF, ht0, h0, h1, htmp, hT, hnl, hlast0, htL, hneg1]
+          · simp only [nameIdx, hp, ↓reduceIte]
+            cases hq : (namesakes L xn.name).filter (· ≥ f) with
+            | nil => exact absurd hq hFne
+            | cons a as => rw [hq] at hT; simp [hT, hAL]
+  · -- pos < 0
+    have hneg : pos < 0 := by omega
+    have hlt1 : pos < 1 := by omega
+    have hnn : ¬ (-pos < 1) := by omega
+    have hk1 : 1 ≤ (-pos).toNat := by omega
+    have hne1 : ¬ pos = 1 := by omega
+    have hstart := hget f tf 0 hf
+    rw [hA0] at hstart
+    cases hA : (namesakes L xn.name).getLast? with
+    | none =>
+      have hAnil : namesakes L xn.name = [] := List.getLast?_eq_none_iff.1 hA
+      left
+      refine ⟨L.length - 1, tl, htl, Or.inl ⟨?_, ?_⟩⟩
+      · simp [Store.nodeInsert, hp, hstart, hA, hl0]
+      · simp only [nameIdx, hp, ↓reduceIte, hAnil]
+        congr 1; omega
+    | some aL =>
+      obtain ⟨tL, htL⟩ := hidx aL (List.mem_of_getLast? hA)
+      have hAne : namesakes L xn.name ≠ [] := by intro h; simp [h] at hA
+      have htmp := hget aL tL pos htL
+      have hloc2 : locIdx L aL xn.name pos =
+          if (-pos).toNat < (namesakes L xn.name).length then
+            (namesakes L xn.name)[(namesakes L xn.name).length - 1 - (-pos).toNat]? else none := by
+        simp only [locIdx, hp, ↓reduceIte, h0]
+        rw [namesakes_before_last L xn.name aL hA, reverse_dropLast_getElem? hk1]
+      rw [hloc2] at htmp
+      by_cases hk : (-pos).toNat < (namesakes L xn.name).length
+      · have hlt : (namesakes L xn.name).length - 1 - (-pos).toNat < (namesakes L xn.name).length := by omega
+        obtain ⟨i, hi⟩ : ∃ i, (namesakes L xn.name)[(namesakes L xn.name).length - 1 - (-pos).toNat]? = some i :=
+          ⟨_, List.getElem?_eq_getElem hlt⟩
+        obtain ⟨ti, hti⟩ := hidx i (List.mem_of_getElem? hi)
+        simp only [hk, ↓reduceIte, hi] at htmp
+        left
+        refine ⟨i, ti, hti, Or.inl ⟨?_, ?_⟩⟩
+        · simp [Store.nodeInsert, hp, hstart, hA, htL, h0, hne1, htmp, hti, hlt1]
+        · simp only [nameIdx, hp, ↓reduceIte]
+          cases hq : namesakes L xn.name with
+          | nil => exact absurd hq hAne
+          | cons a as =>
+            rw [hq] at hk hi
+            simp only [hk, ↓reduceIte, hi, Option.map_some]
+      · simp only [hk, ↓reduceIte] at htmp
+        have hfirst := hget f tf 1 hf
+        rw [hF1] at hfirst
+        cases hF : ((namesakes L xn.name).filter (· ≥ f))[0]? with
+        | some a =>
+          have hamem : a ∈ namesakes L xn.name := (List.mem_filter.1 (List.mem_of_getElem? hF)).1
+          obtain ⟨ta, hta⟩ := hidx a hamem
+          left
+          refine ⟨a, ta, hta, Or.inr ⟨?_, ?_⟩⟩
+          · simp [Store.nodeInsert, hp, hstart, hA, htL, h0, hne1, htmp, hneg, hfirst, hF, hta, hnn]
+          · simp only [nameIdx, hp, ↓reduceIte]
+            cases hq : namesakes L xn.name with
+            | nil => exact absurd hq hAne
+            | cons b bs =>
+              rw [hq] at hk hF
+              simp only [hk, ↓reduceIte]
+              rw [List.head?_eq_getElem?]; exact hF
+        | none =>
+          right
+          refine ⟨?_, ?_⟩
+          · simp [Store.nodeInsert, hp, hstart, hA, htL, h0, hne1, htmp, hneg, hfirst, hF, hnn, Store.gnodeBefore]
+          · simp only [nameIdx, hp, ↓reduceIte]
+            cases hq : namesakes L xn.name with
+            | nil => exact absurd hq hAne
+            | cons b bs =>
+              rw [hq] at hk hF
+              simp only [hk, ↓reduceIte]
+              rw [List.head?_eq_getElem?]; exact hF
+
+
+/-- `mpt_node_add(first, pos, x)` (by name) with `x` a detached root: `x` is placed in the sibling list of `first`
+    at the index `nameIdx` names; nothing happens where `nameIdx` is `none` -/
+theorem add_name_refines {s : Store} {first x f : Nat} {n' : Name} {v' : Val} {cs' l0 L : Forest} {rest : List Forest}
+    {par : Option Nat} (pos : Int)
+    (hR : Realises s ([.node x n' v' cs'] :: l0 :: rest)) (hat : SibsAt first l0 L f par) :
+    ∃ s', s.add first pos x true = .ok s' ∧
+      Realises s' (match nameIdx L f n' pos with
+        | some k => applyAt par (fun L' => L'.insertIdx k (.node x n' v' cs')) l0 :: rest
+        | none => [.node x n' v' cs'] :: l0 :: rest) := by
+  have hT := (hR.real [.node x n' v' cs'] (by simp)).2
+  rw [Real_cons] at hT
+  have hl0 := hR.real l0 (by simp)
+  have hnd := hR.nodup
+  simp only [List.flatMap_cons, ids_cons, ids_nil, List.append_nil] at hnd
+  have hnd0 : (ids l0).Nodup := by
+    have := (List.nodup_append.1 hnd).2.1
+    exact (List.nodup_append.1 this).1
+  have hLr := hat.real hl0.2
+  have hLnd := hat.nodup hnd0
+  obtain ⟨tf, htf, htfid⟩ := getElem?_of_idx? hat.idx
+  have hfuel : L.length ≤ s.fuel := by
+    have h1 := hR.cost_le (l := l0) (by simp)
+    rw [cost_eq] at h1
+    obtain ⟨A, B, h2, _⟩ := hat.ids_split hnd0
+    have h3 := length_le_ids L
+    have : (ids L).length ≤ (ids l0).length := by rw [h2]; simp; omega
+    simp only [Store.fuel]
+    omega
+  have hx : s.Live x (recOf (headId []) none none cs' n' v') := ⟨hT.1, rfl⟩
+  subst htfid
+  rcases nodeInsert_name (x := x) pos hLr htf hfuel hx with ⟨jt, tt, htt, hcase⟩ | ⟨heq, hidx⟩
+  · have hat' := hat.with_idx (idx?_of_getElem? hLnd htt)
+    rcases hcase with ⟨heq, hidx⟩ | ⟨heq, hidx⟩
+    · obtain ⟨s', hs', hr⟩ := after_refines hR hat'
+      simp only [recOf] at hidx
+      exact ⟨s', by simp only [Store.add]; rw [heq]; exact hs', by rw [hidx]; exact hr⟩
+    · obtain ⟨s', hs', hr⟩ := before_refines hR hat'
+      simp only [recOf] at hidx
+      exact ⟨s', by simp only [Store.add]; rw [heq]; exact hs', by rw [hidx]; exact hr⟩
+  · simp only [recOf] at hidx
+    exact ⟨s, by simp only [Store.add]; exact heq, by rw [hidx]; exact hR⟩
+
+/-- `mpt_node_insert(parent, pos, x)` (by name) for a parent that has children -/
+theorem insert_name_refines {s : Store} {parent x : Nat} {n' : Name} {v' : Val} {cs' l0 : Forest} {rest : List Forest}
+    {tp : Tree} (pos : Int)
+    (hR : Realises s ([.node x n' v' cs'] :: l0 :: rest)) (hf : find? parent l0 = some tp) (hne : tp.children ≠ []) :
+    ∃ s', s.insert parent pos x true = .ok s' ∧
+      Realises s' (match nameIdx tp.children 0 n' pos with
+        | some k => modKids parent (fun L' => L'.insertIdx k (.node x n' v' cs')) l0 :: rest
+        | none => [.node x n' v' cs'] :: l0 :: rest) := by
+  have hl0 := hR.real l0 (by simp)
+  obtain ⟨⟨nx, pv, pr, hprec⟩, _⟩ := Real.of_find hl0.2 hf
+  cases hk : tp.children with
+  | nil => exact absurd hk hne
+  | cons c cs =>
+    cases c with
+    | node ci cn cv ccs =>
+      have hidx : idx? ci tp.children = some 0 := by rw [hk, idx?_cons]; simp
+      have hat : SibsAt ci l0 tp.children 0 (some parent) := SibsAt.kids hf hidx
+      obtain ⟨s', hs', hr⟩ := add_name_refines pos hR hat
+      refine ⟨s', ?_, ?_⟩
+      · simp only [Store.insert, Store.get_ok ⟨hprec, rfl⟩, Res.bind_ok]
+        simp only [hk, headId_cons]
+        exact hs'
+      · rw [← hk]
+        cases hq : nameIdx tp.children 0 n' pos with
+        | none => simpa [hq] using hr
+        | some k => simpa [hq, applyAt] using hr
+
+/-- `mpt_node_locate(first, pos, name)` on a well-formed store returns the element `locIdx` names -/
+theorem locate_refines {s : Store} {first f : Nat} {l0 L : Forest} {rest : List Forest} {par : Option Nat}
+    (key : Name) (pos : Int) (hR : Realises s (l0 :: rest)) (hat : SibsAt first l0 L f par) :
+    s.locate (some first) pos key = .ok ((locIdx L f key pos).bind fun i => (L[i]?).map Tree.id) := by
+  have hl0 := hR.real l0 (by simp)
+  have hnd := hR.nodup
+  simp only [List.flatMap_cons] at hnd
+  have hnd0 : (ids l0).Nodup := (List.nodup_append.1 hnd).1
+  obtain ⟨tf, htf, htfid⟩ := getElem?_of_idx? hat.idx
+  have hfuel : L.length ≤ s.fuel := by
+    have h1 := hR.cost_le (l := l0) (by simp)
+    rw [cost_eq] at h1
+    obtain ⟨A, B, h2, _⟩ := hat.ids_split hnd0
+    have h3 := length_le_ids L
+    have : (ids L).length ≤ (ids l0).length := by rw [h2]; simp; omega
+    simp only [Store.fuel]
+    omega
+  subst htfid
+  exact locate_real key pos (hat.real hl0.2) htf hfuel
+
 end Mpt.Nodes
